@@ -45,18 +45,22 @@ func draw(t *rapid.T) sim.ChainCase {
 			case 4: // the same contract revised twice in one block (v1 and v2; v2 possibly after a key rotation), or revised and renewed
 				b.V1Revise()
 				b.V1ReviseAgainInBlock()
-				if b.V2Revise() {
-					if rapid.Bool().Draw(g.T, "againOrRenew") {
-						b.V2ReviseAgainInBlock()
-					} else {
-						b.V2RenewRevisedInBlock()
+				b.AfterV1(func() {
+					if b.V2Revise() {
+						if rapid.Bool().Draw(g.T, "againOrRenew") {
+							b.V2ReviseAgainInBlock()
+						} else {
+							b.V2RenewRevisedInBlock()
+						}
 					}
-				}
+				})
 			case 3: // several revisions of different contracts in one block
 				b.V1Revise()
 				b.V1Revise()
-				b.V2Revise()
-				b.V2Revise()
+				b.AfterV1(func() {
+					b.V2Revise()
+					b.V2Revise()
+				})
 			}
 		},
 		BeforeApply: func(g *sim.Gen, honest types.Block, bs consensus.V1BlockSupplement) {
